@@ -87,17 +87,19 @@ func (f *Frame) callFn(st *State, r *Term, callee *ssa.Function, bindings []Val,
 	// ghost trace of completed calls: returned!key(args..., results...) is a state-independent fact; the
 	// registers $lastarg/$lastres hold the arguments and results of the most recent completed call (nested
 	// calls complete before the call that made them, so after this call they are this call's)
-	var ts []*Term
+	// arguments that are not first-class terms (interior pointers such as &xs[i]) have no register; the
+	// registers of the other arguments and of the results are still set, the returned! fact is skipped
+	ts := make([]*Term, len(args))
 	okT := true
-	for _, a := range args {
-		t, isT := a.(*Term)
-		if !isT {
+	for i, a := range args {
+		if t, isT := a.(*Term); isT {
+			ts[i] = t
+		} else {
 			okT = false
-			break
 		}
-		ts = append(ts, t)
 	}
 	var rts []*Term
+	okR := true
 	switch o := out.(type) {
 	case *Term:
 		rts = append(rts, o)
@@ -105,18 +107,22 @@ func (f *Frame) callFn(st *State, r *Term, callee *ssa.Function, bindings []Val,
 		for _, x := range o {
 			t, isT := x.(*Term)
 			if !isT {
-				okT = false
+				okR = false
 				break
 			}
 			rts = append(rts, t)
 		}
 	default:
-		okT = false
+		okR = false
 	}
-	if okT {
+	if okT && okR {
 		f.ctx.assume(Implies(r, f.ctx.uf("returned!"+funcKey(target), SBool, append(append([]*Term{}, ts...), rts...)...)))
+	}
+	if okR {
 		for i, t := range ts {
-			f.setRegister(st, r, fmt.Sprintf("$lastarg!%s!%d", funcKey(target), i), t)
+			if t != nil {
+				f.setRegister(st, r, fmt.Sprintf("$lastarg!%s!%d", funcKey(target), i), t)
+			}
 		}
 		for i, t := range rts {
 			f.setRegister(st, r, fmt.Sprintf("$lastres!%s!%d", funcKey(target), i), t)
